@@ -412,6 +412,8 @@ class ColumnMapper:
 
     @staticmethod
     def _category_handler(category_values, x):
+        if x == "n/a" or x == "":
+            return "n/a"  # A missing cell selects nothing, even if the sidecar happens to list that text as a category.
         return category_values.get(x, "n/a")
 
     @staticmethod
